@@ -19,7 +19,6 @@ def parse_outcome(text):
     from vtlengine.Exceptions import VTLSyntaxError, VTLEngineException
     try:
         ast = create_ast(text)
-        return ("ast", astnorm.norm(ast))
     except VTLSyntaxError as e:
         return ("syntax", (e.lino, e.colno, str(e).split("\n")[0]))
     except VTLEngineException as e:
@@ -29,6 +28,29 @@ def parse_outcome(text):
         if type(e).__name__ in ("ShimServerError",):
             raise core.HarnessError("parser stand-in failed: %s" % e)
         return ("raw", type(e).__name__, str(e)[:200])
+    # the comparable form of the AST is computed outside the try: a failure here is the harness's, not the engine's
+    try:
+        return ("ast", digest(astnorm.norm(ast)))
+    except RecursionError:
+        return ("ast", "too deep for the harness to normalise")
+
+
+def digest(x):
+    """Order-preserving hash of a nested list / tuple / dict structure, computed without recursion."""
+    import hashlib
+    h = hashlib.sha256()
+    stack = [x]
+    while stack:
+        v = stack.pop()
+        if isinstance(v, (list, tuple)):
+            h.update(b"[%d" % len(v)); stack.extend(reversed(v))
+        elif isinstance(v, dict):
+            h.update(b"{%d" % len(v))
+            for k in sorted(v, key=repr, reverse=True):
+                stack.append(v[k]); stack.append(k)
+        else:
+            h.update(repr(v).encode("utf-8", "replace")); h.update(b"|")
+    return h.hexdigest()
 
 
 def location_problem(text, out):
